@@ -387,7 +387,11 @@ func workerHashes(t *testing.T, p *Property, tier string, enc *json.Encoder) {
 	var hs []string
 	for i := 0; i < runs; i++ {
 		seed := splitmix(base*1000003 + uint64(i))
-		out := runOnce(t, p, tier, seed, nil, nil, false, false)
+		dump := os.Getenv("SIM_DUMP") // diagnosis of a determinism failure: SIM_DUMP=<file prefix> writes the traces
+		out := runOnce(t, p, tier, seed, nil, nil, false, dump != "")
+		if dump != "" {
+			os.WriteFile(fmt.Sprintf("%s.%d.%d", dump, os.Getpid(), i), []byte(strings.Join(out.Trace, "\n")), 0o644)
+		}
 		if out.Tool != "" {
 			hs = append(hs, "TOOL:"+out.Tool)
 			continue
